@@ -149,9 +149,16 @@ def run(ctx):
         card = mm.mc_module(TUPLES, BAD, alphabet=ALPHA, keydomains=((1, 4), (2, 3), (3, 2)))
         vlib.tlc(ctx, "MCMetric", mm.cfg("check", invariants=["Injective"], init="KeyInitAll", next_="KeyNext"),
                  extra_files={"MCMetric.tla": card}, label="Metric-injective-card", timeout=1800)
-        r = vlib.tlc(ctx, "MCMetric", mm.cfg("check", dev=True, invariants=["Injective"], init="KeyInitAll", next_="KeyNext"),
-                     extra_files={"MCMetric.tla": card}, label="Metric-injective-card-dev", expect_violation=True, timeout=1800)
-        if not r.violated:
+        try:
+            r = vlib.tlc(ctx, "MCMetric", mm.cfg("check", dev=True, invariants=["Injective"], init="KeyInitAll", next_="KeyNext"),
+                         extra_files={"MCMetric.tla": card}, label="Metric-injective-card-dev", expect_violation=True, timeout=1800)
+            refuted = bool(r.violated)
+        except vlib.InfraError as e:
+            # an invariant that is false in the (single) initial state is reported by TLC in these words
+            refuted = "The invariant of Injective is equal to FALSE" in str(e)
+            if not refuted:
+                raise
+        if not refuted:
             raise vlib.InfraError("Injective holds with %s on: deviation mis-modelled" % DEV)
     # real collisions -> pairs on a real metric; plus the recorded witness and a seeded sample of other pairs
     pairs = []
